@@ -309,7 +309,9 @@ def h_exact(aH, jH, nH):
     return float(1 / (ud + (ud * ud - 1).sqrt()))
 
 
-H_RTOL = 1e-3      # relative deviation from the exact root that we still call "solves the balance equation"
+H_RTOL = 1e-7      # relative deviation from the exact root that we still call "solves the balance equation" (observed on the repaired tree: 5e-11,
+                   # the series branch bb < 1e-10 has a relative truncation error of that order; the clamp at 1e-14 is applied to the reference too)
+H_DEV = [0.0]      # largest relative deviation seen in this run (goes into the evidence)
 
 
 def h_min_flux():
@@ -328,6 +330,7 @@ def oracle_H(c, out):
     if all(math.isfinite(v) and v > 0 for v in c) and jH >= h_min_flux() and nH * aH > 1e-300:
         ref = h_exact(aH, jH, nH)
         refc = max(ref, 1e-14)
+        H_DEV[0] = max(H_DEV[0], abs(r - refc) / refc)
         if abs(r - refc) > H_RTOL * refc:
             kind = "denormal" if jH < 1e-300 else "balance"
             return kind, ("hydrogen-only neutral fraction %r deviates from the root %r of n*alpha*(1-x)^2 = J*x by a factor %.3g "
@@ -474,6 +477,7 @@ def run(ck):
                 fails.setdefault(("H", "monotone"), []).append((i2, "hydrogen-only neutral fraction is not monotone in the radiation field: alphaH=%r nH=%r: "
                                                                "jH=%r -> %r but jH=%r -> %r (J/(n alpha) = %.3g)" % (aH, nH, j1, x1, j2, x2, j2 / (nH * aH)), i1))
     cov["h_only_monotone_pairs_checked"] = nmono
+    cov["h_only_max_relative_deviation_from_exact_root"] = H_DEV[0]
     # exploration statistics of the H/He sweep (real code)
     sw_out = out_i[sweep_lo:sweep_lo + len(sweep)]
     exc = 0.0
